@@ -311,6 +311,25 @@ def storeRootTree (n : Nat) (cached : Option Trie) (base : Trie) (pending : List
 def handedOps (unfiltered : Bool) (keep : Op → Bool) (pending : List Op) : List Op :=
   if unfiltered then pending else pending.filter keep
 
+/-- the root `Store.Commit()` records for the new height: the root of the tree `Root()` returns when the statement that
+assigns `root` in `Commit` is the unconditional `root, err = s.Root()` (generated fact `commitTakesRootFromRoot`);
+a `Commit` with a shortcut for blocks without pending operations and without a cached tree would record `recorded`
+(whatever the commit-id lookup for the current height finds: nothing on a fresh database) instead -/
+def storeCommitRoot (viaRoot : Bool) (recorded : Bytes) (cached : Option Trie) (pending : List Op)
+    (rootTree : Outcome Trie) : Outcome Bytes :=
+  if viaRoot || cached.isSome || !pending.isEmpty then
+    match rootTree with
+    | .ok t => .ok t.root
+    | .reserved => .reserved
+    | .crash => .crash
+  else .ok recorded
+
+/-- the tree the live store continues from after `Store.Rollback(v)`: the tree committed for `v` when the prefix the tree
+lives under is among the prefixes `Rollback` prunes above `v` (generated fact `rollbackPrunedPrefixes`); otherwise the
+nodes of the abandoned heights stay, and the store (which reads the tree at "latest") goes on from the abandoned tip -/
+def rollbackTree (pruned : List Bytes) (treePrefix : Bytes) (target tip : Trie) : Trie :=
+  if pruned.contains treePrefix then target else tip
+
 /-- what `Store.Copy()` hands to the clone as cached commitment: nothing, unless the composite literal of `Copy` carries
 the field `sc` over (generated fact `copyCarriesCommitment`) -/
 def copyCached (carriesSc : Bool) (cached : Option Trie) : Option Trie := if carriesSc then cached else none
